@@ -61,6 +61,8 @@ def _masked_index(prop, case, f):
 def _multiindex(prop, case, f):
     # dataframe.empty builds a MultiIndex by assigning private attributes; under pandas 3 reads with >= 2 index levels
     # raise, return nulls or crash the interpreter (the repository's own multi-index tests fail in this environment)
+    if f.get("kind") == "process_crash" and case.get("multi"):
+        return True      # the dedicated multi-index cases can take the interpreter down (pandas internals on a hand-built MultiIndex)
     names = _prog_index(f)
     if len(names) < 2:
         return False
